@@ -146,10 +146,7 @@ func vC29_sendProto(_ *inet.Client, ctx context.Context, req proto.Message) (pro
 	return new(internalpb.RemoteTellResponse), nil
 }
 
-var (
-	VC29From = address.NewReference("snd", "sys", "h0", 9000)
-	VC29To   = address.NewReference("rcv", "sys", "h1", 9001)
-)
+var VC29From, VC29To *address.Address // set by VC29_reset
 
 // VC29_tell runs the real RemoteTell for one caller. coalesced chooses the arm.
 func VC29_tell(p *VC29Prop, caller int, coalesced bool, message int) error {
@@ -164,6 +161,8 @@ func VC29_tell(p *VC29Prop, caller int, coalesced bool, message int) error {
 }
 
 func VC29_reset() {
+	VC29From = address.NewReference("snd", "sys", "h0", 9000)
+	VC29To = address.NewReference("rcv", "sys", "h1", 9001)
 	VC29Batch = nil
 	VC29Requests = nil
 }
